@@ -66,6 +66,8 @@ class Connection:
     """
     if self.record_type not in ["L", "C", "P", "E", "G", "F"]:
       return
+    own = self.get("ID") if self.record_type in ["L", "C"] else \
+            (None if self.record_type == "F" else self.get("name"))
     for k in self.__class__.REFERENCE_FIELDS:
       value = self.get(k)
       if not isinstance(value, list):
@@ -74,6 +76,10 @@ class Connection:
         if isinstance(ref, gfapy.OrientedLine):
           ref = ref.line
         if isinstance(ref, str):
+          if isinstance(own, str) and ref == own:
+            raise gfapy.NotUniqueError(
+              "Line: {}\n".format(str(self))+
+              "refers to its own identifier as a segment")
           found = gfa.line(ref)
           if found is not None and found.record_type not in ["S", "\n"]:
             raise gfapy.NotUniqueError(
